@@ -379,7 +379,7 @@ def install(eng):
         if isinstance(f, Ref):
             f = eng.force(f.cell)
         if isinstance(f, Adt) and isinstance(f.ty, str) and f.ty.startswith("{closure@"):
-            fn = eng.closures.get(f.ty)
+            fn = eng.find_closure(f.ty, call.m)
             if fn is None:
                 raise UnknownCallee("closure body " + f.ty)
             p0 = fn.params[0][1]
@@ -573,6 +573,22 @@ def install(eng):
         it.stages.append((name, call.argv[1] if len(call.argv) > 1 else None))
         return it
 
+    @on(r"Iterator>::(take|skip)$|^(Iter|IntoIter|Enumerate|Map)::(take|skip)$")
+    def _take_skip(call):
+        it = call.argv[0]
+        if not isinstance(it, IterVal):
+            return NotImplemented
+        n = eng._concrete(call.argv[1])
+        if n is None or any(st[0] in ("filter", "filter_map") for st in it.stages) or it.extra == "unknown_prefix":
+            raise Unsupported("take/skip with a symbolic count or after a filtering adaptor")
+        if call.norm.endswith("take"):
+            it.items = it.items[:it.pos + n]
+        else:
+            it.pos += n
+            if any(st[0] == "enumerate" for st in it.stages):
+                it.count += n
+        return it
+
     def source_value(it, item):
         kind = it.kind
         if kind == "vec_into_iter":
@@ -625,7 +641,7 @@ def install(eng):
             f = eng.force(f.cell)
         fn = None
         if isinstance(f, Adt) and isinstance(f.ty, str) and f.ty.startswith("{closure@"):
-            fn = eng.closures.get(f.ty)
+            fn = eng.find_closure(f.ty, m)
             if fn is None:
                 raise UnknownCallee("closure body " + f.ty)
             p0 = fn.params[0][1]
